@@ -330,6 +330,49 @@ theorem pok_pairing_holds (e : G2 →ₗ[F] G1 →ₗ[F] T) (g2 gen2 : G2) (h hP
   simp only [sub_self, zero_sub, map_neg, map_smul, map_add, LinearMap.neg_apply, LinearMap.smul_apply, smul_smul, LinearMap.add_apply]
   module
 
+/-- **The Schnorr part of the proof of knowledge is accepted**: with the commitments, challenge-dependent responses and
+randomised signature that the Go prover is proved to produce (`proveProofOfKnowledgeOfSignatureIsCorrectlyFormed`:
+Gamma = mu*g2 + sum gamma[i]*Y[i], Phi = mu*h^eps, x[i] = gamma[i] + e*m[i], y = mu + e*delta; `PoKofSig`:
+kappa = X + sum m[i]*Y[i] + delta*g2, nu = delta*h^eps), both equations that `PoKofSignaturePoCorrectForm.Verify` is proved
+to check hold, for EVERY challenge e (so in particular for the one both sides compute from the same oracle inputs). -/
+theorem schnorr_part_accepted (g2 gen2 X : G2) (heps : G1) (Y : ℕ → G2) (ms γs : ℕ → F) (μ δ e : F) (n : ℕ) :
+    -- y*g2 + sum x[i]*Y[i] = Gamma + e*(kappa + ((gen2 - gen2) - X))
+    sumG Y (fun i => γs i + e * ms i) ((μ + e * δ) • g2) n
+      = sumG Y γs (μ • g2) n + e • ((sumG Y ms X n + δ • g2) + ((gen2 - gen2) - X))
+    ∧
+    -- y*h^eps = e*nu + Phi
+    (μ + e * δ) • heps = e • (δ • heps) + μ • heps := by
+  constructor
+  · rw [sumG_eq_sum, sumG_eq_sum, sumG_eq_sum]
+    have h1 : ∑ j ∈ range n, (γs j + e * ms j) • Y j
+        = ∑ j ∈ range n, γs j • Y j + e • ∑ j ∈ range n, ms j • Y j := by
+      rw [Finset.smul_sum, ← Finset.sum_add_distrib]
+      refine Finset.sum_congr rfl (fun j _ => ?_)
+      rw [add_smul, mul_smul]
+    rw [h1, sub_self, zero_sub]
+    simp only [smul_add, add_smul, mul_smul, smul_neg]
+    abel
+  · rw [add_smul, mul_smul, add_comm]
+
+/-- **Witnesses of a signer set combine to a witness under the threshold key.** If signer j holds the key
+(Px(a j), Py_k(a j)) for polynomials whose combination Px + sum m[k] * Py_k has degree < n (true when each has) and its witness is (Px(a j) + sum m[k] * Py_k(a j)) * h (`unblind_value`),
+then combining the witnesses with the code's Lagrange coefficients gives (Px(0) + sum m[k] * Py_k(0)) * h: the form that
+`pok_pairing_holds` needs, under the threshold key (Px(0), Py_k(0)). (The Go aggregation in Prover.ProveKnowledgeOfSignature
+is not under a functional contract: witnesses are stored by value; that each is combined under its own signer's point is
+C09.) -/
+theorem threshold_witness (h g : G1) (a : ℕ → F) (n L : ℕ) (Px : F[X]) (Py : ℕ → F[X]) (ms : ℕ → F)
+    (hinj : Set.InjOn a (range n : Finset ℕ))
+    (hdeg : (Px + ∑ k ∈ range L, C (ms k) * Py k).degree < n)
+    (w : ℕ → G1) (hw : ∀ j, j < n → w j = (Px.eval (a j) + ∑ k ∈ range L, ms k * (Py k).eval (a j)) • h) :
+    aggG1 w a n (g - g) n = (Px.eval 0 + ∑ k ∈ range L, ms k * (Py k).eval 0) • h := by
+  have hQ : ∀ t : F, (Px + ∑ k ∈ range L, C (ms k) * Py k).eval t
+      = Px.eval t + ∑ k ∈ range L, ms k * (Py k).eval t := by
+    intro t
+    simp only [eval_add, eval_finsetSum, eval_mul, eval_C]
+  have := aggregate_of_shares h g a n (Px + ∑ k ∈ range L, C (ms k) * Py k) hinj hdeg w
+    (fun j hj => by rw [hw j hj, hQ])
+  rw [this, hQ]
+
 end BlindSigning
 
 end TSS
@@ -342,3 +385,5 @@ end TSS
 #print axioms TSS.aggregate_of_shares
 #print axioms TSS.unblind_correct
 #print axioms TSS.pok_pairing_holds
+#print axioms TSS.schnorr_part_accepted
+#print axioms TSS.threshold_witness
